@@ -45,6 +45,23 @@ func (r *c02FailReader) Read(p []byte) (int, error) {
 	return n, nil
 }
 
+// c02FlakySeeker reads fine; its Seek works `okSeeks` times and fails afterwards (a forward-only
+// stream, a file that closes itself at EOF): whatever DetectReader does with Seek, an error it
+// returns comes with the bare application/octet-stream.
+type c02FlakySeeker struct {
+	r       *bytes.Reader
+	okSeeks int
+}
+
+func (s *c02FlakySeeker) Read(p []byte) (int, error) { return s.r.Read(p) }
+func (s *c02FlakySeeker) Seek(off int64, whence int) (int64, error) {
+	if s.okSeeks <= 0 {
+		return 0, errC02Sentinel
+	}
+	s.okSeeks--
+	return s.r.Seek(off, whence)
+}
+
 var c02Registered map[string]bool
 
 // c02IsToken: RFC 2045 token.
@@ -136,6 +153,8 @@ func c02Run(c c02Case) (*MIME, error) {
 		return DetectReader(bytes.NewReader(doc))
 	case "readerr":
 		return DetectReader(&c02FailReader{data: doc, at: c.ErrAt})
+	case "flakyseek":
+		return DetectReader(&c02FlakySeeker{r: bytes.NewReader(doc), okSeeks: int(vfHash(doc, vfHashU(uint64(c.Limit))) % 4)})
 	case "nofile":
 		return DetectFile(filepath.Join(vfScratchDir(), "does", "not", "exist"))
 	case "dir":
@@ -190,7 +209,11 @@ func c02GenLabel(t *rapid.T) (string, bool) {
 func c02Gen(t *rapid.T) c02Case {
 	var c c02Case
 	var doc string
-	switch rapid.IntRange(0, 6).Draw(t, "k") {
+	switch rapid.IntRange(0, 7).Draw(t, "k") {
+	case 7: // zip packages of every kind (a stored `mimetype` entry may name any type at all)
+		if raw, err := c19Build(c19GenOne(t).Entries); err == nil {
+			doc = string(raw)
+		}
 	case 0, 1: // html direct meta
 		l, _ := c02GenLabel(t)
 		q := rapid.SampledFrom([]string{`"`, `'`, ""}).Draw(t, "q")
@@ -217,7 +240,7 @@ func c02Gen(t *rapid.T) c02Case {
 	}
 	c.Doc = vfB(doc)
 	c.Limit = vfGenLimit(t, len(doc))
-	c.Entry = rapid.SampledFrom([]string{"detect", "detect", "detect", "reader", "reader", "readerr", "file", "nofile", "dir", "fileslash"}).Draw(t, "entry")
+	c.Entry = rapid.SampledFrom([]string{"detect", "detect", "detect", "reader", "reader", "readerr", "file", "nofile", "dir", "fileslash", "flakyseek"}).Draw(t, "entry")
 	if c.Entry == "readerr" {
 		c.ErrAt = rapid.IntRange(0, len(doc)).Draw(t, "errat")
 	}
